@@ -5,7 +5,16 @@
 // https://opensource.org/licenses/MIT.
 
 fn main() {
-    let args = std::env::args().collect::<Vec<String>>();
+    let mut args: Vec<String> = Vec::new();
+    for arg in std::env::args_os() {
+        match arg.into_string() {
+            Ok(arg) => args.push(arg),
+            Err(arg) => {
+                eprintln!("xargs: invalid argument {arg:?}: not valid UTF-8");
+                std::process::exit(1);
+            }
+        }
+    }
     std::process::exit(findutils::xargs::xargs_main(
         &args
             .iter()
